@@ -198,7 +198,7 @@ def st_chain_simple(draw, uid=0):
 
 
 @st.composite
-def st_config(draw, outdir, sources=None):
+def st_config(draw, outdir, sources=None, ident_sources=("snoopy_literal", "uid", "pid", "failure")):
     """Structured configuration.  Returns dict: {'kind', 'ini' (bytes or None), 'opts' (list)}"""
     kind = draw(st.sampled_from(["opts"] * 10 + ["absent", "empty", "garbage", "dir"]))
     if kind == "absent":
@@ -236,7 +236,7 @@ def st_config(draw, outdir, sources=None):
     if draw(st.integers(0, 3)) == 0:
         opts.append((b"syslog_level", draw(st.sampled_from(LEVELS + ["LOG_ERR", "bogus"])).encode()))
     if draw(st.integers(0, 3)) == 0:
-        opts.append((b"syslog_ident", draw(st_format_simple(["snoopy_literal", "uid", "pid", "failure"], 2))))
+        opts.append((b"syslog_ident", draw(st_format_simple(list(ident_sources), 2))))
     if draw(st.integers(0, 3)) == 0:
         opts.append((b"datasource_message_max_length", draw(st.sampled_from([b"255", b"256", b"1k", b"0", b"x", b"1m"]))))
     if draw(st.integers(0, 3)) == 0:
